@@ -761,15 +761,13 @@ def Arg.okE : Arg → Bool
   | .lit s => (isClean s && isEnt s)
   | _ => true
 
-/-- filters for which "every `&` begins an entity" is *proved* to survive on safe values: they concatenate, escape, select whole
-items or return plain text. Not in the list: the entity-breaking `slice split remove* replace* upcase` (counter-examples in
-`Props/C05.lean`), and `downcase capitalize strip lstrip rstrip strip_html strip_newlines url_decode`, for which no
-counter-example exists but no proof was made. -/
+/-- filters for which "every `&` begins an entity" survives on safe values. The complement is exactly the entity-breaking
+`slice split remove remove_first remove_last replace replace_first replace_last upcase` (one counter-example each in
+`Props/C05.lean`) plus `safe` and `newline_to_br`, which the property excludes anyway. -/
 def FName.entFriendly : FName → Bool
-  | .append | .prepend | .escape | .escape_once | .join | .first | .last | .reverse | .concat | .default | .size
-  | .truncate | .truncatewords | .squish | .base64_encode | .base64_decode | .base64_url_safe_encode
-  | .base64_url_safe_decode | .url_encode | .escapejs => true
-  | _ => false
+  | .slice | .split | .remove | .remove_first | .remove_last | .replace | .replace_first | .replace_last | .upcase
+  | .safe | .newline_to_br => false
+  | _ => true
 
 def FCall.okE (f : FCall) : Bool := f.name.entFriendly && f.args.all Arg.okE
 
